@@ -116,6 +116,9 @@ class Wrapper(metaclass=abc.ABCMeta):
             ValueError: If the model outputs are strings.
         """
         try:
+            if np.ndim(y_prediction) > 0 and np.size(y_prediction) == 1:
+                # size-one arrays of any shape are single-valued predictions (float() only takes 0-d arrays)
+                y_prediction = np.asarray(y_prediction).reshape(())
             return {self.default_label: float(y_prediction)}
         except TypeError:  # y_prediction is not a size-1 array or real_valued number
             y_prediction = y_prediction.flatten()
